@@ -26,7 +26,7 @@ REQUIRED = {"C14": {"healthy-package": 200, "fault:duplicate": 30, "fault:defaul
                     "select:none": 30, "period-api": 200, "period-run": 60, "iteration-checked": 2000, "after-disable-silent": 100,
                     "other-modes-silent-checked": 200, "chooser-options-checked": 200, "disable-after-run-silent": 30, "disable-mid-run": 15, "reselected-between-periods": 50, "elapsed-time-checked": 500,
                     "mode-class-imported-from-library-module": 20, "run-period-of-1ms": 5,
-                    "fault-is-a-BaseException": 10, "constructor-fails-with-TypeError": 3, "namespace-package": 30, "run-with-watchdog": 20, "run-iter_fn:none": 10, "run-iter_fn:list": 10, "period-without-disable": 20, "missing-dotted-package": 3, "falsy-mode-object-chosen": 5}}
+                    "fault-is-a-BaseException": 10, "selector-forwards-constructor-arguments": 100, "constructor-fails-with-TypeError": 3, "namespace-package": 30, "run-with-watchdog": 20, "run-iter_fn:none": 10, "run-iter_fn:list": 10, "period-without-disable": 20, "missing-dotted-package": 3, "falsy-mode-object-chosen": 5}}
 ASSUMPTIONS = {"C14": ["a mode class re-exported by a second module is not generated (the statement does not say whether it is found twice)",
                        "a mode class that exactly one package module imports from a module outside the package counts as 'found in the modules of the package'",
                        "with several DEFAULT modes and the FMS attached the preselected mode may be any of them",
@@ -140,7 +140,8 @@ def gen_case(rng, uid):
                             "iter_fn": rng.choice(["fn", "fn", "list", "none"]), "watchdog": rng.choice([None, None, "simple", "wpilib"])})
             if periods[-1]["iter_fn"] == "none":
                 periods[-1]["disable_at"] = None
-    return {"uid": uid, "pkg": pkg, "namespace_pkg": rng.random() < 0.12, "missing": missing, "modules": modules, "fault": applied, "fms": fms, "select": sel,
+    ctor_args = rng.choice([None, None, [[1, "x"], {}], [[], {"k": 2}], [[None], {"a": 0, "b": "s"}]])
+    return {"uid": uid, "pkg": pkg, "ctor_args": ctor_args, "namespace_pkg": rng.random() < 0.12, "missing": missing, "modules": modules, "fault": applied, "fms": fms, "select": sel,
             "reselect": rng.random() < 0.5,
             "sel_seed": rng.randrange(1 << 30), "style": style, "periods": periods}
 
@@ -187,7 +188,7 @@ def write_package(case, root):
                 src.append("    DISABLED = True")
             if c["default"]:
                 src.append("    DEFAULT = True")
-            src.append(f"    def __init__(self, *a, **k):\n        self.ident = {ident!r}\n        rt.ev('ctor', {ident!r}, (a, tuple(sorted(k))))")
+            src.append(f"    def __init__(self, *a, **k):\n        self.ident = {ident!r}\n        rt.ev('ctor', {ident!r}, (a, tuple(sorted(k.items()))))")
             if c.get("falsy") == "len":
                 src.append("    def __len__(self):\n        return 0")
             if c.get("falsy") == "bool":
@@ -292,7 +293,9 @@ def run_case(acc, case):
         if any(m["broken"] == "import-base" for m in case["modules"]) and not case["missing"]:
             acc.ev("fault-is-a-BaseException")
         try:
-            selector = AutonomousModeSelector(case["pkg"])
+            ca = case.get("ctor_args") or [[], {}]
+            # "args / kwargs to pass to created autonomous modes"
+            selector = AutonomousModeSelector(case["pkg"], *ca[0], **ca[1])
         except BaseException as ex:  # noqa
             exc = ex
         faults = A["faults"]
@@ -321,6 +324,15 @@ def run_case(acc, case):
         # ---- constructor calls: exactly once per eligible class, none for others
         ctors = [x[1] for x in sel_rt.LOG if x[0] == "ctor"]
         acc.checks += 2
+        ca = case.get("ctor_args") or [[], {}]
+        if ca[0] or ca[1]:
+            acc.ev("selector-forwards-constructor-arguments")
+            want_args = (tuple(ca[0]), tuple(sorted(ca[1].items())))
+            bad = [x for x in sel_rt.LOG if x[0] == "ctor" and x[2] != want_args]
+            acc.checks += 1
+            if bad:
+                acc.violation("C14/constructor-arguments", f"mode {bad[0][1]} was constructed with {bad[0][2]!r}, the selector was given {want_args!r}", case, {})
+                return
         if sorted(ctors) != sorted(A["ctor_expected"]):
             acc.violation("C14/instantiation", f"constructed {sorted(ctors)}, expected exactly once each of {sorted(A['ctor_expected'])} "
                           f"(DISABLED: {A['disabled']})", case, {})
